@@ -736,78 +736,10 @@ func pairingRules(c *core.Ctx) {
 					why = fmt.Sprintf("result %d has type %s, expected the optic for type parameter %s", i+1, rt, tps[i+1])
 				}
 			}
-			// calls: hseq.NewN[T, A...], hseq.New[T](attr[0:n]...), hseq.FMapN(seq, ctor[T,A1], ...)
-			var sawNewN, sawNew, sawFMap bool
-			for _, b := range fn.Blocks {
-				for _, in := range b.Instrs {
-					call, isCall := in.(*ssa.Call)
-					if !isCall || !ok {
-						continue
-					}
-					callee := call.Call.StaticCallee()
-					if callee == nil || callee.Origin() == nil || callee.Origin().Pkg == nil || load.Logical(callee.Origin().Pkg.Pkg.Path()) != "hseq" {
-						continue
-					}
-					org := callee.Origin()
-					targs := callee.TypeArgs()
-					switch {
-					case len(call.Call.Args) == 0: // NewN[T, A...]()
-						sawNewN = true
-						if len(targs) != n+1 {
-							ok, why = false, fmt.Sprintf("by-type branch calls hseq.%s with %d type arguments, expected %d", org.Name(), len(targs), n+1)
-							break
-						}
-						for i := range targs {
-							if !types.Identical(targs[i], tps[i]) {
-								ok, why = false, fmt.Sprintf("by-type branch: type argument %d of hseq.%s is %s, expected %s", i+1, org.Name(), targs[i], tps[i])
-							}
-						}
-					case len(call.Call.Args) == 1: // New[T](names...)
-						sawNew = true
-						if len(targs) != 1 || !types.Identical(targs[0], tps[0]) {
-							ok, why = false, "by-name branch does not unfold the container type parameter"
-							break
-						}
-						// the names passed: attr[0:n] (n>=2) or a fresh 1-slice holding attr[0]
-						if sl, isSl := call.Call.Args[0].(*ssa.Slice); isSl {
-							if p, isP := sl.X.(*ssa.Parameter); isP {
-								hi, isK := sl.High.(*ssa.Const)
-								lo := sl.Low == nil
-								if l, isL := sl.Low.(*ssa.Const); isL && l.Value.ExactString() == "0" {
-									lo = true
-								}
-								if !(isK && hi.Value.ExactString() == fmt.Sprint(n) && lo && p == fn.Params[0]) {
-									ok, why = false, fmt.Sprintf("by-name branch selects %v of the names, expected exactly the first %d", sl, n)
-								}
-							} else if n != 1 {
-								ok, why = false, "by-name branch does not pass a prefix of the attr parameter"
-							}
-						}
-					case len(call.Call.Args) == n+1: // FMapN(seq, f1..fn)
-						sawFMap = true
-						for i := 1; i <= n && ok; i++ {
-							f, isF := call.Call.Args[i].(*ssa.Function)
-							if !isF || f.Origin() != fam.ctor {
-								ok, why = false, fmt.Sprintf("argument %d of hseq.%s is not %s", i, org.Name(), fam.ctor.Name())
-								break
-							}
-							ft := f.TypeArgs()
-							if len(ft) != 2 || !types.Identical(ft[0], tps[0]) || !types.Identical(ft[1], tps[i]) {
-								ok, why = false, fmt.Sprintf("argument %d of hseq.%s is %s[%v], expected focus type parameter %s (position %d)", i, org.Name(), fam.ctor.Name(), ft, tps[i], i)
-							}
-						}
-						// and its results are returned in order
-						if ok {
-							ret := returnsInOrder(fn, call)
-							if !ret {
-								ok, why = false, "results of the positional map are not returned in order"
-							}
-						}
-					}
-				}
-			}
-			if ok && !(sawNewN && sawNew && sawFMap) {
-				ok, why = false, fmt.Sprintf("expected calls of hseq.NewN (by type), hseq.New (by name) and hseq.FMapN not all found (%v %v %v)", sawNewN, sawNew, sawFMap)
+			// on every returning path (helpers inlined): no names => hseq.NewN[T, A1..An](); names => hseq.New[T](the
+			// first n names); then hseq.FMapN(that listing, ctor[T,A1], .., ctor[T,An]) whose results are returned in order
+			if ok {
+				ok, why = productPaths(c, fn, tps, n, fam.ctor)
 			}
 			c.Check(ok, "pairing", name, fn.Pos(), fmt.Sprintf("%d positions", n), "%s", why)
 		}
@@ -895,6 +827,109 @@ func pairingRules(c *core.Ctx) {
 }
 
 // returnsInOrder: fn returns exactly the results of call, in order.
+// productPaths: the path-level half of the pairing rule for ForProductN / ForSpectrumN.
+func productPaths(c *core.Ctx, fn *ssa.Function, tps []*types.TypeParam, n int, ctor *ssa.Function) (bool, string) {
+	an := c.AnalyzeKeeping(fn, "hseq-opaque", func(f *ssa.Function) bool {
+		return f != nil && f.Pkg != nil && load.Logical(f.Pkg.Pkg.Path()) == "hseq"
+	})
+	if len(an.Problems) > 0 || len(an.Headers) > 0 {
+		return false, "the function has loops or could not be modelled"
+	}
+	attr := &ir.Term{Op: "param", Aux: fn.Params[0].Name()}
+	noNames := &ir.Term{Op: "bin", Aux: "==", Args: sorted2(ir.Const("0"), &ir.Term{Op: "len", Args: []*ir.Term{attr}})}
+	inHseq := func(f *ssa.Function) bool {
+		return f != nil && f.Pkg != nil && load.Logical(f.Pkg.Pkg.Path()) == "hseq"
+	}
+	sawType, sawName := false, false
+	for _, p := range an.AllPaths() {
+		if p.Exit != ir.ExitReturn {
+			continue
+		}
+		var listing, fmap *ir.Step
+		for _, st := range p.Events(ir.KCall) {
+			if !inHseq(st.Static) {
+				continue
+			}
+			switch {
+			case len(st.A) == n+1 && n+1 != 1 && fmap == nil && listing != nil:
+				fmap = st
+			case listing == nil && (len(st.A) == 0 || len(st.A) == 1):
+				listing = st
+			default:
+				return false, "unexpected call of hseq." + st.Static.Name()
+			}
+		}
+		if listing == nil || fmap == nil {
+			return false, "expected a listing (hseq.NewN by type / hseq.New by name) followed by hseq.FMapN on every path"
+		}
+		cond := polarity(p, noNames)
+		switch {
+		case cond > 0:
+			sawType = true
+			if len(listing.A) != 0 || len(listing.InstArgs) != n+1 {
+				return false, fmt.Sprintf("without names the listing must come from hseq.NewN with %d type arguments (found hseq.%s with %d)", n+1, listing.Static.Name(), len(listing.InstArgs))
+			}
+			for i, ta := range listing.InstArgs {
+				if !types.Identical(ta, tps[i]) {
+					return false, fmt.Sprintf("by-type branch: type argument %d of hseq.%s is %s, expected %s", i+1, listing.Static.Name(), ta, tps[i])
+				}
+			}
+		case cond < 0:
+			sawName = true
+			if len(listing.A) != 1 || len(listing.InstArgs) != 1 || !types.Identical(listing.InstArgs[0], tps[0]) {
+				return false, "by-name branch does not unfold the container type parameter with the names"
+			}
+			names := listing.A[0]
+			good := false
+			if names.Op == "slice" && len(names.Args) == 4 && ir.Same(names.Args[0], attr) {
+				lo := names.Args[1].Aux == "_" || names.Args[1].Aux == "0"
+				hi, isK := names.Args[2].IntConst()
+				good = lo && isK && hi == int64(n)
+			}
+			if !good && n == 1 {
+				// a fresh one-element slice holding attr[0]
+				if x := appendedOne(p, names); x != nil {
+					good = x.Op == "load" && x.Args[0].Op == "iaddr" && ir.Same(x.Args[0].Args[0], attr) && x.Args[0].Args[1].Aux == "0"
+				}
+			}
+			if !good {
+				return false, fmt.Sprintf("by-name branch passes %s, expected exactly the first %d names", short(names), n)
+			}
+		default:
+			return false, "a path chooses between names and types without testing len(attr) == 0"
+		}
+		if !ir.Same(fmap.A[0], listing.R) {
+			return false, "the positional map is not applied to the listing just derived"
+		}
+		for i := 1; i <= n; i++ {
+			f := fmap.A[i]
+			if f.Op != "fn" || f.Fn == nil || originOf(f.Fn) != ctor {
+				return false, fmt.Sprintf("argument %d of hseq.%s is not %s", i, fmap.Static.Name(), ctor.Name())
+			}
+			ft := f.Fn.TypeArgs()
+			if len(ft) != 2 || !types.Identical(ft[0], tps[0]) || !types.Identical(ft[1], tps[i]) {
+				return false, fmt.Sprintf("argument %d of hseq.%s is %s[%v], expected focus type parameter %s (position %d)", i, fmap.Static.Name(), ctor.Name(), ft, tps[i], i)
+			}
+		}
+		if len(p.Results) != n {
+			return false, "wrong number of results"
+		}
+		for i, r := range p.Results {
+			want := fmap.R
+			if n > 1 {
+				want = &ir.Term{Op: "extract", Aux: fmt.Sprint(i), Args: []*ir.Term{fmap.R}}
+			}
+			if !ir.Same(r, want) {
+				return false, "results of the positional map are not returned in order"
+			}
+		}
+	}
+	if !sawType || !sawName {
+		return false, fmt.Sprintf("expected a by-type and a by-name path (found %v / %v)", sawType, sawName)
+	}
+	return true, ""
+}
+
 func returnsInOrder(fn *ssa.Function, call *ssa.Call) bool {
 	found := false
 	for _, b := range fn.Blocks {
